@@ -179,17 +179,19 @@ Fixpoint run_seg (res : resumer) (sg : seg) (w : world) : world * segres :=
 
 (* gen.send(v) / gen.throw(e) on the inner generator object, in the current
    context (the generator protocol itself does not touch contexts) *)
+(* the body stopped: the generator object records where / that it finished *)
+Definition seg_outcome (g : gid) (p : world * segres) : world * outcome :=
+  match snd p with
+  | RYield v s' => (set_i g (PSuspended s') (fst p), ORet v)
+  | RReturn v => (set_i g PFinished (fst p), OStop v)
+  | RRaise e => (set_i g PFinished (fst p), ORaise e)
+  end.
+
 Definition inner_resume (res : resumer) (g : gid) (bi : binput) (w : world) : world * outcome :=
   match get g w with
   | None => (w, ORaise NoSuchGen)
   | Some x =>
-      let run s :=
-        let (w1, r) := run_seg res (g_body x s bi) w in
-        match r with
-        | RYield v s' => (set_i g (PSuspended s') w1, ORet v)
-        | RReturn v => (set_i g PFinished w1, OStop v)
-        | RRaise e => (set_i g PFinished w1, ORaise e)
-        end in
+      let run s := seg_outcome g (run_seg res (g_body x s bi) w) in
       match g_i x, bi with
       | PUnstarted, BSend None => run 0
       | PUnstarted, BSend (Some _) => (w, ORaise TypeErrorNonNone)
